@@ -12,6 +12,13 @@ structure St where
   s : ReplySpec.St := {}
   live : List Bool := []
   sched : List Bool := []
+  sin : Option StreamIn.SIn := none
+  -- stream-backed connection: id width when open, lazily created reply context, handle tokens in use,
+  -- spec: unanswered requests moved to handles, transport reachable
+  cw : Option Nat := none
+  cc : Option Ctx := none
+  clive : List Bool := []
+  cheld : List (Option (List Byte)) := []
   deriving Inhabited
 
 def errName (r : Int) : String :=
@@ -48,7 +55,197 @@ def popSched (st : St) (n : Nat) : List Bool := st.sched.drop n
 
 def anyLive (l : List Bool) : Bool := l.any id
 
+/- ---------------------------------------------------------------- stream-input variant -/
+open StreamIn in
+def parseAct (a : String) : Option Act :=
+  if a = "replynull" then some .replyNull
+  else if a = "defer" then some .defer
+  else if a.startsWith "ret:" then
+    match (a.drop 4).toString.toInt? with
+    | some v => if v < -128 ∨ v > 127 ∨ (a.drop 4).toString.startsWith "+" then none else some (.ret v)
+    | none => none
+  else if a.startsWith "reply:" then (parseHex (a.drop 6).toString).map .reply
+  else none
+
+def parseActs (s : String) : Option (List StreamIn.Act) :=
+  let parts := s.splitOn ","
+  if parts.length > 16 ∨ parts.any (· = "") then none else parts.mapM parseAct
+
+def fmtFrames (fs : List (List Byte)) : String :=
+  if fs.isEmpty then "-" else ",".intercalate (fs.map fun f => s!"frame[{toHex f}]")
+
+open StreamIn in
+/-- what the property expects of one request: R text and frames -/
+def specReq (idlen : Nat) (data : List Byte) (acts : List Act) : String × List (List Byte) :=
+  let id := data.take idlen
+  let retv : Int := acts.foldl (fun r a => match a with | .ret v => v | _ => r) 0
+  let short := idlen ≠ 0 ∧ data.length < idlen
+  let marked := idlen ≠ 0 ∧ (id.headD 0).toNat ≥ 128
+  let rid : Option Nat := if marked then ReplySpec.decode (Reply.unmark id) else some 0
+  if short ∨ rid.isNone then ("called=0 ctx=0 id=0 acts=-", [])
+  else
+    let firstReply : Option (Option (List Byte)) := acts.findSome? fun a =>
+      match a with | .reply m => some (some m) | .replyNull => some none | _ => none
+    let frame := ReplySpec.streamFrame idlen data firstReply (codeByte retv)
+    let ctx := frame.isSome
+    -- the first reply attempt is accepted, every later one refused
+    let res := (acts.foldl (fun (acc : List String × Bool) a =>
+      match a with
+      | .ret _ => (acc.1 ++ ["ret"], acc.2)
+      | .defer => (acc.1 ++ [if ctx then "nodefer" else "noctx"], acc.2)
+      | _ => if !ctx then (acc.1 ++ ["noctx"], acc.2) else (acc.1 ++ [if acc.2 then "refused" else "ok"], true))
+      ([], false)).1
+    (s!"called=1 ctx={if ctx then 1 else 0} id={rid.getD 0} acts={",".intercalate res}", frame.toList)
+
+def stepS (st : St) (w : List String) : St × String :=
+  match w with
+  | ["s", "open", n] =>
+    match n.toNat? with
+    | some idlen =>
+      if idlen > 1000 then (st, "bad-op") else
+      if idlen > 255 then ({ st with sin := none, cw := none, cc := none, clive := [], cheld := [] }, "R refused | C - | I ret=0 | S refused ; -")
+      else ({ st with sin := some ⟨idlen, 0, []⟩, cw := none, cc := none, clive := [], cheld := [] }, "R ok | C - | I ret=0 | S ok ; -")
+    | none => (st, "bad-op")
+  | ["s", "req", h, a] =>
+    match st.sin, parseHex h, parseActs a with
+    | some s, some data, some acts =>
+      if data.length > 1000 then (st, "bad-op") else
+      let r := StreamIn.request s data acts
+      let disp : Int := if r.ret < 0 then 131072 else r.ret % 65536
+      let (sr, sf) := specReq s.idlen data acts
+      ({ st with sin := some r.s },
+       s!"R called={if r.called then 1 else 0} ctx={if r.ctx then 1 else 0} id={r.evid} acts={if r.called then ",".intercalate r.results else "-"} | C {fmtFrames r.frames} | I next=1 disp={disp} | S {sr} ; {fmtFrames sf}")
+    | _, _, _ => (st, "bad-op")
+  | ["s", "close"] =>
+    match st.sin with
+    | some _ => ({ st with sin := none }, "R ok | C - | I ret=0 | S ok ; -")
+    | none => (st, "bad-op")
+  | _ => (st, "bad-op")
+
+/- ---------------------------------------------------------------- stream-backed connection -/
+
+/-- `hdr.arg = ret` (int8) -/
+def argByte (r : Int) : Byte := UInt8.ofNat ((if r < 0 then r + 256 else r).toNat % 256)
+
+def framesOf (l : List Sent) : List (List Byte) := l.map fun e => e.id ++ e.msg.getD []
+
+structure HState where
+  c : Ctx
+  results : List String := []
+  ret : Int := 0
+  nh : Nat                       -- handle tokens handed out so far
+  newLive : List Bool := []
+
+open StreamIn in
+/-- the scripted handler on the deferrable context (transport accepts) -/
+def conActs : List Act → HState → HState
+  | [], h => h
+  | a :: as, h =>
+    match a with
+    | .ret v => conActs as { h with ret := v, results := h.results ++ ["ret"] }
+    | .defer =>
+      if h.nh ≥ 32 then conActs as { h with results := h.results ++ ["nodefer"] } else
+      match Reply.defer h.c with
+      | (some _, c') => conActs as { h with c := c', results := h.results ++ [s!"deferred:h{h.nh}"], nh := h.nh + 1, newLive := h.newLive ++ [true] }
+      | (none, c') => conActs as { h with c := c', results := h.results ++ ["nodefer"] }
+    | .reply m =>
+      let r := Reply.reply h.c (some m) 0
+      conActs as { h with c := r.2, results := h.results ++ [if r.1 < 0 then "refused" else "ok"] }
+    | .replyNull =>
+      let r := Reply.reply h.c none 0
+      conActs as { h with c := r.2, results := h.results ++ [if r.1 < 0 then "refused" else "ok"] }
+
+open StreamIn in
+/-- spec for one request on the connection: R text, frames, id moved to a new handle (if deferred) -/
+def specConReq (idlen : Nat) (nh : Nat) (data : List Byte) (acts : List Act) : String × List (List Byte) × Option (List Byte) :=
+  let id := data.take idlen
+  let retv : Int := acts.foldl (fun r a => match a with | .ret v => v | _ => r) 0
+  if idlen ≠ 0 ∧ (data.length < idlen ∨ (id.headD 0).toNat ≥ 128) then ("called=0 ctx=0 id=0 acts=-", [], none)
+  else
+    let ctx := idlen ≠ 0 ∧ id.any (· ≠ 0)
+    -- state: 0 = request pending, 1 = answered, 2 = deferred
+    let r := acts.foldl (fun (acc : List String × Nat × List (List Byte)) a =>
+      match a with
+      | .ret _ => (acc.1 ++ ["ret"], acc.2)
+      | .defer => if !ctx then (acc.1 ++ ["noctx"], acc.2)
+                  else if acc.2.1 = 0 ∧ nh < 32 then (acc.1 ++ [s!"deferred:h{nh}"], 2, acc.2.2) else (acc.1 ++ ["nodefer"], acc.2)
+      | .reply m => if !ctx then (acc.1 ++ ["noctx"], acc.2)
+                    else if acc.2.1 = 0 then (acc.1 ++ ["ok"], 1, acc.2.2 ++ [ReplySpec.mark id ++ m]) else (acc.1 ++ ["refused"], acc.2)
+      | .replyNull => if !ctx then (acc.1 ++ ["noctx"], acc.2)
+                    else if acc.2.1 = 0 then (acc.1 ++ ["ok"], 1, acc.2.2 ++ [ReplySpec.mark id]) else (acc.1 ++ ["refused"], acc.2))
+      (([] : List String), (0 : Nat), ([] : List (List Byte)))
+    let frames := if ctx ∧ r.2.1 = 0 then r.2.2 ++ [ReplySpec.mark id ++ [1, argByte retv]] else r.2.2
+    (s!"called=1 ctx={if ctx then 1 else 0} id=0 acts={",".intercalate r.1}", frames, if r.2.1 = 2 then some id else none)
+
+def stepC (st : St) (w : List String) : St × String :=
+  match w with
+  | ["c", "open", n] =>
+    match n.toNat? with
+    | some idlen =>
+      if idlen > 255 then (st, "bad-op") else
+      ({ st with sin := none, cw := some idlen, cc := none, clive := [], cheld := [] }, "R ok | C - | I ret=0 | S ok ; -")
+    | none => (st, "bad-op")
+  | ["c", "req", h, a] =>
+    match st.cw, parseHex h, parseActs a with
+    | some idlen, some data, some acts =>
+      if data.length > 1000 then (st, "bad-op") else
+      let (sr, sf, sdef) := specConReq idlen st.clive.length data acts
+      let id := data.take idlen
+      let sTail := s!" | S {sr} ; {fmtFrames sf}"
+      if idlen ≠ 0 ∧ (data.length < idlen ∨ (id.headD 0).toNat ≥ 128) then
+        (st, s!"R called=0 ctx=0 id=0 acts=- | C - | I next=1 disp=131072{sTail}")
+      else
+        let ctx := idlen ≠ 0 ∧ id.any (· ≠ 0)
+        if !ctx then
+          let res := acts.map fun a => match a with | .ret _ => "ret" | _ => "noctx"
+          let retv : Int := acts.foldl (fun r a => match a with | .ret v => v | _ => r) 0
+          let disp : Int := if retv < 0 then 131072 else retv % 65536
+          (st, s!"R called=1 ctx=0 id=0 acts={",".intercalate res} | C - | I next=1 disp={disp}{sTail}")
+        else
+          match (st.cc <|> Reply.create idlen true) with
+          | none => (st, "bad-op")
+          | some c0 =>
+            let c1 := (Reply.arm c0 id).2
+            let h := conActs acts { c := c1, nh := st.clive.length }
+            -- generic reply for what the handler left pending
+            let c2 := if h.c.cur.isSome then (Reply.reply h.c (some [1, argByte h.ret]) 0).2 else h.c
+            let frames := framesOf (c2.log.drop c0.log.length)
+            let disp : Int := if h.ret < 0 then 131072 else h.ret % 65536
+            ({ st with cc := some c2, clive := st.clive ++ h.newLive, cheld := st.cheld ++ (h.newLive.map fun _ => sdef) },
+             s!"R called=1 ctx=1 id=0 acts={",".intercalate h.results} | C {fmtFrames frames} | I next=1 disp={disp}{sTail}")
+    | _, _, _ => (st, "bad-op")
+  | ["c", "dreply", ks, m] =>
+    match ks.toNat?, parseMsg m, st.cc with
+    | some k, some msg, some c =>
+      if !(st.clive.getD k false) then (st, "bad-op") else
+      let attached := st.cw.isSome
+      let r := st.cheld.getD k none
+      let alts : List ReplySpec.Alt :=
+        if !attached then [(true, []), (false, [])]
+        else match r with
+          | some id => [(true, [⟨ReplySpec.mark id, msg, true⟩])]
+          | none => [(false, [])]
+      let fmtA := " || ".intercalate (alts.map fun (ok, calls) =>
+        s!"{if ok then "ok" else "refused"} ; {fmtFrames (calls.map fun e => e.id ++ e.msg.getD [])}")
+      let (ret, c') := Reply.dreply c k msg 0
+      let frames := framesOf (c'.log.drop c.log.length)
+      let gone := !(ret < 0 ∧ msg.isSome)
+      ({ st with cc := some c', clive := if gone then st.clive.set k false else st.clive,
+                 cheld := if gone then st.cheld.set k none else st.cheld },
+       s!"R {if ret < 0 then "refused" else "ok"} | C {fmtFrames frames} | I ret={errName ret} | S {fmtA}")
+    | _, _, _ => (st, "bad-op")
+  | ["c", "close"] =>
+    match st.cw with
+    | some _ =>
+      -- mpt_connection_fini: the owner releases the reply context (nothing is pending on it)
+      let c' := st.cc.map fun c => Reply.dropCtx c 0
+      ({ st with cw := none, cc := c' }, "R ok | C - | I ret=0 | S ok ; -")
+    | none => (st, "bad-op")
+  | _ => (st, "bad-op")
+
 def step (st : St) (w : List String) : St × String :=
+  if w.head? = some "s" then stepS st w else
+  if w.head? = some "c" then stepC st w else
   match w with
   | ["r", "id2buf", ids, ws] =>
     match ids.toNat?, ws.toNat? with
